@@ -12,6 +12,7 @@ use wtverif_harness::*;
 
 mod ops;
 mod ops2;
+mod ops3;
 
 fn main() {
     std::panic::set_hook(Box::new(|_| {}));
